@@ -148,6 +148,25 @@ theorem decryptBind_sound (P : Prims) (permKey keyId c : Bytes) (m : Nat) (i : B
         · cases h
       · cases h
     · cases h
+/-- The small composing functions, statement by statement as read from the source: which arguments
+reach the hash helpers (`&authKey, &msgKey, x`; `x = 0` in `KeysV1`), the order of assembly, and that
+`aesIV` is `aesKey` with the hashes swapped.  (The byte ranges and copy offsets inside them are the
+regenerated tables the `Impl` model interprets; these pins cover the glue around them.) -/
+theorem kdf_glue_facts :
+    Facts.C06.keysBody = ["x := getX(mode)", "r := make([]byte, 512)", "a := sha256a(r[0:0], &authKey, &msgKey, x)",
+      "b := sha256b(r[256:256], &authKey, &msgKey, x)", "aesKey(a, b, &key)", "aesIV(a, b, &iv)", "return key, iv"] ∧
+    Facts.C06.messageKeyBody = ["r := make([]byte, 0, 256)", "msgKeyLarge := msgKeyLarge(r, authKey, plaintextPadded, mode)",
+      "return messageKey(msgKeyLarge)"] ∧
+    Facts.C06.aesIVBody = ["aesKey(sha256b, sha256a, v)"] ∧
+    Facts.C06.aesKeyBody = ["copy(v[:8], sha256a[:8])", "copy(v[8:], sha256b[8:16+8])", "copy(v[24:], sha256a[24:24+8])"] ∧
+    Facts.C06.messageKeyV1Body = ["sum := sha1.Sum(plaintext)", "copy(v[:], sum[4:20])", "return v"] ∧
+    Facts.C06.messageKeyFnBody = ["b := messageKeyLarge[8 : 16+8]", "copy(v[:len(b)], b)", "return v"] ∧
+    Facts.C06.keysV1Body.length = 13 ∧
+    Facts.C06.keysV1Body.take 5 = ["r := make([]byte, sha1.Size*4)", "a := sha1a(r[0:0], authKey, msgKey, 0)",
+      "b := sha1b(r[sha1.Size:sha1.Size], authKey, msgKey, 0)", "c := sha1c(r[2*sha1.Size:2*sha1.Size], authKey, msgKey, 0)",
+      "d := sha1d(r[3*sha1.Size:3*sha1.Size], authKey, msgKey, 0)"] :=
+  ⟨rfl, rfl, rfl, rfl, rfl, rfl, rfl, rfl⟩
+
 /-- Non-vacuity: a lawful instance exists, and on it the derivation really depends on the direction. -/
 example : LawfulPrims Prims.toy := Prims.toy_lawful
 example : Spec.msgKey Prims.toy ((List.range 256).map UInt8.ofNat) [1, 2, 3] .client ≠
